@@ -528,6 +528,24 @@ partial def loop (h : IO.FS.Stream) (s : St) : IO Unit := do
               let sg : List String := if E.path.getLast? != some I.bus && E.path.contains I.bus then ["F9"] else []
               let vio : Vio := ⟨"C09", "eventBus", sg, s!"instance {i} on bus {I.bus} read event_bus = {got}"⟩
               printVios (if s.diverged then s.sc ++ "~" else s.sc) s.line [vio]
+          -- C01 / C18: every handler registered for the event's type (or '*') that has no result on it yet and is not held back
+          -- by the recursion rule is selected when the activation begins (`C01_every_matching_handler_without_a_result_is_selected`);
+          -- a handler the model selects and the real activation leaves out is never given the event - among them the temporary
+          -- handler of a pending expect()
+          | ["oTodo", pp, ks] =>
+            (match s.w.act (parseProc pp) with
+             | some A =>
+               let real := natList ks
+               let missing := A.todo.filter fun k => !real.contains k
+               for k in missing do
+                 printVios (s.sc ++ "~") s.line
+                   ([⟨"C01", "notSelected", [], s!"bus {A.bus} event {A.ev}: handler {k} matches the event and has no result on it, but is not among the handlers selected for its processing"⟩] ++
+                    (match (s.w.bus A.bus).handlers.find? (fun r => r.hid == k) with
+                     | some r => (match r.kind with
+                       | .expect x _ => [⟨"C18", "subscriberNotSelected", [], s!"bus {A.bus} event {A.ev}: the temporary handler of the pending expect() of task {x} is not selected for the event: the call never sees it"⟩]
+                       | _ => [])
+                     | none => []))
+             | none => pure ())
           -- C03 / C08: the real completion signal is set while a handler result of the event is not terminal
           | ["oEvS", e, _, sg, _] =>
             let E := s.w.ev e.toNat!
